@@ -79,6 +79,9 @@ func c18Program(r *gen.Rand, seen map[uintptr]int) (digests int, steps []string,
 		for s := 0; s < segments; s++ {
 			total := r.PickInt([]int{0, 1, 55, 56, 63, 64, 65, 119, 128, r.Intn(4097)})
 			data := r.Bytes(total)
+			if r.Chance(1, 3) {
+				_, _ = h.Write(nil) // an empty chunk is a legal write and changes nothing
+			}
 			for off := 0; off < len(data); {
 				n := 1 + r.Intn(len(data)-off)
 				if r.Chance(1, 4) {
@@ -88,6 +91,10 @@ func c18Program(r *gen.Rand, seen map[uintptr]int) (digests int, steps []string,
 					return digests, steps, "Write error: " + err.Error()
 				}
 				off += n
+			}
+			if r.Chance(1, 3) {
+				_, _ = h.Write(data[:0]) // ... also as the last chunk of a message
+				steps = append(steps, "write(0B)")
 			}
 			msg = append(msg, data...)
 			steps = append(steps, fmt.Sprintf("write(%dB)", total))
